@@ -302,6 +302,10 @@ def t_xcheck(it):
             elif len(bad) < 5:
                 bad.append({"case": c, "executor": got, "cpython": exp_d})
         total = {k: sum(1 for c in cases if c["component"] == k) for k in EXEC}
+        if bad:
+            # a disagreement says the ENGINE mis-executes this tree (or crashed on it): nothing it proves here can be trusted, and
+            # nothing it refutes is a property violation -> reported as a checker failure (exit 3), never as a VIOLATION
+            raise RuntimeError("encoder cross-check: the executor disagrees with CPython on this tree: " + json.dumps(bad[:2], default=str)[:1500])
         for k in EXEC:
             p.oblige(f"xcheck/{k}/executor-agrees-with-CPython", agree[k] == total[k], prop=None,
                      detail={"agree": agree[k], "total": total[k], "first_disagreements": [b for b in bad if b["case"]["component"] == k][:2]})
